@@ -178,7 +178,13 @@ def run_presentation(net, flips, scheme, style, fmt):
         sd1.expand_bfs()
         sd2 = SuccessionDiagram(bn_api(pn))
         sd2.build()
-        return judge(net, sd1, sd2, back)
+        out = judge(net, sd1, sd2, back)
+        if not flips and scheme == "sorted":
+            base = new_sd(net)
+            base.expand_bfs()
+            if not (base.is_isomorphic(sd1) and sd1.is_isomorphic(base) and base.is_subgraph(sd1) and sd1.is_subgraph(base)):
+                out.append(("is-isomorphic-false-for-equivalent-presentation", f"declaration order {perm}"))
+        return out
     text = text_of(tnet, style, fmt)
     lf = "aeon" if fmt == "aeonfree" else fmt
     sd1 = SuccessionDiagram.from_rules(text, format=lf)
